@@ -1,17 +1,27 @@
 /-
 C16 — reported source positions are the true positions (DESIGN.md 7.16), lexer/parser part.
-Statement positions are a field of the forest compared in `Goyang.Props.C02`; the theorems here
-say what those positions are.
+
+Proved here, for every Unicode text without the constructs C02 excludes:
+* `statement_positions_true`: every statement generic parsing returns (the whole forest, nested
+  statements included) reports the file name handed to `Parse` and the line and column — both
+  1-based, columns counted in characters — of the first character of its keyword, whatever mixture
+  of tabs, multi-byte characters, comments, multi-line strings and CR LF precedes it.  (The positions
+  are a field of the forest of `Goyang.Props.C02.parse_refines_spec`; `TruePos` says what they are.)
+* `lexical_fault_rejected`: an unterminated quote or comment, an undefined backslash pair, a
+  misplaced token always make the parse fail with a non-empty error (it is never swallowed).
+
+Not proved (kept visible below): `syntax_error_position`.
 -/
-import Goyang.Model.Parse
-import Goyang.Spec.Parse
+import Goyang.Props.C02
+import Goyang.Lemmas.Positions
 
 namespace Goyang.Props.C16
-open Goyang.Spec.Parse
+open Goyang.Spec.Parse Goyang.Model.Parse
+open Goyang.Props.C02 (utf8 encForest)
+open Goyang.Lemmas.Positions (TruePos)
 
-/-- The reference reader gives every statement the position of the first character of its keyword,
-computed from the text alone: line = 1 + line feeds before it, column = 1 + characters since the
-last line feed. -/
+/-- The reference reader gives every statement the position of its keyword token, computed from the
+text alone: line = 1 + line feeds before it, column = 1 + characters since the last line feed. -/
 theorem spec_statement_position (text : List Char) (f : Nat) (k : PTok) (ts r : List PTok) (s : Stmt)
     (h : stmt text f (k :: ts) = some (s, r)) :
     s.line = 1 + (text.take k.off).count '\n' ∧
@@ -37,5 +47,86 @@ theorem spec_statement_position (text : List Char) (f : Nat) (k : PTok) (ts r : 
             · cases h
         · cases h
     · cases h
+
+/-- ... and that token is the keyword: every statement of the reference reader's forest, at any
+depth, stands at the first character of its keyword (`TruePos`: an offset inside the text at which
+the keyword — a non-empty run of characters up to the next delimiter — begins, `line` and `col`
+counted from the text before that offset). -/
+theorem spec_positions_are_keyword_starts (text : List Char) (forest : List Stmt)
+    (h : parse text = some forest) : ∀ s ∈ forest, TruePos text s :=
+  Goyang.Lemmas.Positions.parse_truePos text forest h
+
+/-- **C16, first sentence.**  Whenever generic parsing accepts a text, the forest it returns is the
+reference reader's forest with the file name added: every statement, nested ones included, reports
+`file`, and the line and column of the first character of its keyword. -/
+theorem statement_positions_true (file : List UInt8) (t : List Char) (ha : Admissible t = true)
+    (forest : List Statement) (h : parseText file (utf8 t) = .ok forest) :
+    ∃ ss, parse t = some ss ∧ forest = encForest file ss ∧ ∀ s ∈ ss, TruePos t s := by
+  have hr := Goyang.Props.C02.parse_refines_spec file t ha
+  cases hp : parse t with
+  | some ss =>
+    rw [hp] at hr
+    simp only at hr
+    rw [hr] at h
+    injection h with h
+    exact ⟨ss, rfl, h.symm, spec_positions_are_keyword_starts t ss hp⟩
+  | none =>
+    rw [hp] at hr
+    simp only at hr
+    obtain ⟨msgs, _, hm⟩ := hr
+    rw [hm] at h
+    cases h
+
+/-- the statements of the model's forest carry the file name they were parsed under -/
+theorem statement_file (file : List UInt8) (s : Stmt) :
+    (Goyang.Lemmas.ListSrc.encStmt file s).file = file ∧
+    (Goyang.Lemmas.ListSrc.encStmt file s).line = s.line ∧ (Goyang.Lemmas.ListSrc.encStmt file s).col = s.col := by
+  obtain ⟨kw, arg, line, col, subs⟩ := s
+  simp [Goyang.Lemmas.ListSrc.encStmt]
+
+/-- A text with a lexical or syntactic fault is always rejected with a non-empty error. -/
+theorem lexical_fault_rejected (file : List UInt8) (t : List Char) (ha : Admissible t = true)
+    (h : parse t = none) : ∃ msgs, msgs ≠ [] ∧ parseText file (utf8 t) = .rejected msgs := by
+  have hr := Goyang.Props.C02.parse_refines_spec file t ha
+  rw [h] at hr
+  exact hr
+
+/-! ## not proved
+
+```
+theorem syntax_error_position (file : List UInt8) (t : List Char) (ha : Admissible t)
+    (k : FaultKind) (off : Nat) (h : SingleFault t k off) :
+    ∃ e rest, parseText file (utf8 t) = .rejected (… e …) ∧ firstPositioned … = e ∧
+      e.pos = some (lineOf t off, colOf t off) ∧ e.cls = classOf k
+```
+(for a text with a single lexical or syntactic fault of the listed kinds — unexpected `}`, missing
+`;`/`{`, a quoted string where a keyword must stand, an undefined backslash pair, an unterminated
+quote or comment — the first positioned error line names the position, computed from the text
+alone, of the offending token, backslash or opener).
+
+What is missing: the simulation of `Goyang/Lemmas/` follows implementation and reference reader in
+lockstep only up to the first error written (`Sim`, `Outcome`: "an error has been written"); it does
+not say *which* error line.  The ingredients are there — the lexer lemmas give `line`/`col` of the
+cursor against `lineAfter`/`colAfter` of the text read, the list source of `Lemmas/ListSrc.lean`
+already carries the exact position of the first undefined pair (`escErr`, `firstBadOff`), and
+`nextStatement_rbrace` gives the position of a stray `}` — but the relation `Sim` would have to
+carry "both error lists have the same head", which was not done.  This part of C16 rests on the
+correspondence run: the single-fault injector (exact position of the first positioned error against
+`spec.pos`) and, on every rejected text, the oracle `spec.marks` (every positioned error stands at a
+token / `}` / undefined-pair backslash / unterminated opener computed by `Goyang.Spec.Parse.marks`).
+-/
+
+/-! ## the hypotheses are satisfiable -/
+
+set_option maxRecDepth 20000 in
+/-- on the example of `Props/C02.lean`: `b` stands on line 2 behind a tab, in column 2 -/
+example : parseText [102] (utf8 Goyang.Props.C02.exampleText) =
+    .ok (encForest [102] Goyang.Props.C02.exampleForest) := by rfl
+
+set_option maxRecDepth 8000 in
+example : Admissible Goyang.Props.C02.exampleText = true := by decide
+
+/-- a rejected text (`a {`): the hypothesis of `lexical_fault_rejected` holds of it -/
+example : parse ['a', ' ', '{'] = none ∧ Admissible ['a', ' ', '{'] = true := ⟨by rfl, by decide⟩
 
 end Goyang.Props.C16
